@@ -62,7 +62,18 @@ func (m *idmap) msgIndex(id imap.InternalMessageID) int {
 	}
 	return -1
 }
-func remoteID(i int) imap.MessageID   { return imap.MessageID("r" + strconv.Itoa(i)) }
+
+// remoteID is the inverse of remoteIndex: remote ids that the implementation invented (DELETED-<uuid>) keep their real text.
+func (m *idmap) remoteID(i int) imap.MessageID {
+	m.mu.Lock()
+	defer m.mu.Unlock()
+	for s, k := range m.extraRm {
+		if k == i {
+			return imap.MessageID(s)
+		}
+	}
+	return imap.MessageID("r" + strconv.Itoa(i))
+}
 func mboxRemote(i int) imap.MailboxID { return imap.MailboxID("mb" + strconv.Itoa(i)) }
 func mboxName(i int) string           { return "n" + strconv.Itoa(i) }
 func (m *idmap) remoteIndex(s string) int {
@@ -93,7 +104,7 @@ var baseDate = time.Date(2024, 1, 1, 10, 0, 0, 0, time.UTC)
 
 func (m *idmap) createReq(q req) *db.CreateMessageReq {
 	return &db.CreateMessageReq{
-		Message:     imap.Message{ID: remoteID(q.Remote), Flags: imap.NewFlagSet(q.Flags...), Date: baseDate.Add(time.Duration(q.ID) * time.Second)},
+		Message:     imap.Message{ID: m.remoteID(q.Remote), Flags: imap.NewFlagSet(q.Flags...), Date: baseDate.Add(time.Duration(q.ID) * time.Second)},
 		InternalID:  m.msgID(q.ID),
 		LiteralSize: 100 + q.ID,
 		Body:        "body" + strconv.Itoa(q.ID),
@@ -169,7 +180,7 @@ func (m *idmap) execOp(ctx context.Context, rd db.ReadOnly, tx db.Transaction, o
 	case "AddMessages":
 		ps := make([]db.MessageIDPair, len(o.Pairs))
 		for i, p := range o.Pairs {
-			ps[i] = db.MessageIDPair{InternalID: m.msgID(p[0]), RemoteID: remoteID(p[1])}
+			ps[i] = db.MessageIDPair{InternalID: m.msgID(p[0]), RemoteID: m.remoteID(p[1])}
 		}
 		rows, err := tx.AddMessagesToMailbox(ctx, box, ps)
 		if err != nil {
@@ -206,7 +217,7 @@ func (m *idmap) execOp(ctx context.Context, rd db.ReadOnly, tx db.Transaction, o
 	case "FilterContains":
 		ps := make([]db.MessageIDPair, len(o.Ids))
 		for i, x := range o.Ids {
-			ps[i] = db.MessageIDPair{InternalID: m.msgID(x), RemoteID: remoteID(x)}
+			ps[i] = db.MessageIDPair{InternalID: m.msgID(x), RemoteID: m.remoteID(x)}
 		}
 		l, err := rd.MailboxFilterContains(ctx, box, ps)
 		if err != nil {
@@ -280,7 +291,7 @@ func (m *idmap) execOp(ctx context.Context, rd db.ReadOnly, tx db.Transaction, o
 	case "MarkDeleted":
 		return rUnit(), tx.MarkMessageAsDeleted(ctx, m.msgID(o.N1))
 	case "MarkDeletedRemote":
-		return rUnit(), tx.MarkMessageAsDeletedWithRemoteID(ctx, remoteID(o.N1))
+		return rUnit(), tx.MarkMessageAsDeletedWithRemoteID(ctx, m.remoteID(o.N1))
 	case "MarkDeletedRandomRemote":
 		if err := tx.MarkMessageAsDeletedAndAssignRandomRemoteID(ctx, m.msgID(o.N1)); err != nil {
 			return res{}, err
@@ -294,7 +305,7 @@ func (m *idmap) execOp(ctx context.Context, rd db.ReadOnly, tx db.Transaction, o
 		}
 		return rUnit(), nil
 	case "UpdateRemoteMessageID":
-		return rUnit(), tx.UpdateRemoteMessageID(ctx, m.msgID(o.N1), remoteID(o.N2))
+		return rUnit(), tx.UpdateRemoteMessageID(ctx, m.msgID(o.N1), m.remoteID(o.N2))
 	case "ClearRecentOne":
 		return rUnit(), tx.ClearRecentFlagInMailboxOnMessage(ctx, box, m.msgID(o.N1))
 	case "ClearRecentAll":
@@ -464,7 +475,7 @@ func (m *idmap) execOp(ctx context.Context, rd db.ReadOnly, tx db.Transaction, o
 		b, err := rd.MessageExists(ctx, m.msgID(o.N1))
 		return rBool(b), err
 	case "MessageExistsRemote":
-		b, err := rd.MessageExistsWithRemoteID(ctx, remoteID(o.N1))
+		b, err := rd.MessageExistsWithRemoteID(ctx, m.remoteID(o.N1))
 		return rBool(b), err
 	case "TotalMessageCount":
 		n, err := rd.GetTotalMessageCount(ctx)
@@ -476,7 +487,7 @@ func (m *idmap) execOp(ctx context.Context, rd db.ReadOnly, tx db.Transaction, o
 		}
 		return rNum(m.remoteIndex(string(r))), nil
 	case "GetMessageIDFromRemote":
-		id, err := rd.GetMessageIDFromRemoteID(ctx, remoteID(o.N1))
+		id, err := rd.GetMessageIDFromRemoteID(ctx, m.remoteID(o.N1))
 		if err != nil {
 			return res{}, err
 		}
